@@ -132,6 +132,8 @@ struct VarAdapter {
 		if(!m.any) {
 			int viaapply = x.apply([](auto &o) -> int { if constexpr (std::is_same_v<std::remove_reference_t<decltype(o)>, int>) return o; else return o.get(); });
 			if(viaapply != m.v) return c.fail("apply", strf("apply() visited %d expected %d", viaapply, m.v));
+			int viaconst = cx.const_apply([](const auto &o) -> int { if constexpr (std::is_same_v<std::remove_cvref_t<decltype(o)>, int>) return o; else return o.get(); });
+			if(viaconst != m.v) return c.fail("apply", strf("const_apply() visited %d expected %d", viaconst, m.v));
 		}
 	}
 	static void compare(SeqCtx &c, State &s) {
